@@ -382,3 +382,5 @@ class MinimizerIMinuit(MinimizerBase):
         # invalidate cache
         self._did_fit = True
         self._invalidate_cache()
+        # the last point MIGRAD evaluated is not the minimum: evaluate there, so that whoever listens to the function calls (the nexus) holds the minimum too
+        self._func_handle(*self.parameter_values)
